@@ -760,25 +760,27 @@ pub fn mp4_rich(r: &mut Rng) -> Vec<u8> {
 
     // ---- mfra / tfra (one entry per fragment; the SDK maps a track to one moof, so one
     // fragment per track is what tfra can faithfully describe)
-    if n_frag == 1 && r.chance(2, 3) {
+    if n_frag >= 1 && r.chance(2, 3) {
         let v1 = r.chance(1, 2);
         let mut p = 1u32.to_be_bytes().to_vec(); // track id
         let sizes = r.below(64) as u32; // length_size_of traf/trun/sample num
         p.extend(sizes.to_be_bytes());
-        p.extend(1u32.to_be_bytes()); // entries
+        p.extend((n_frag as u32).to_be_bytes()); // one entry per fragment
         let mut pp = Vec::new();
-        if v1 {
-            p.extend(0u64.to_be_bytes());
-            let at = mark(&mut p, 8);
-            pp.push((at + 12, 8, T::Moof(0)));
-        } else {
-            p.extend(0u32.to_be_bytes());
-            let at = mark(&mut p, 4);
-            pp.push((at + 12, 4, T::Moof(0)));
-        }
-        for sh in [4u32, 2, 0] {
-            let n = ((sizes >> sh) & 3) as usize + 1;
-            p.extend(std::iter::repeat(1u8).take(n));
+        for f in 0..n_frag {
+            if v1 {
+                p.extend((f as u64).to_be_bytes());
+                let at = mark(&mut p, 8);
+                pp.push((at + 12, 8, T::Moof(f)));
+            } else {
+                p.extend((f as u32).to_be_bytes());
+                let at = mark(&mut p, 4);
+                pp.push((at + 12, 4, T::Moof(f)));
+            }
+            for sh in [4u32, 2, 0] {
+                let n = ((sizes >> sh) & 3) as usize + 1;
+                p.extend(std::iter::repeat(1u8).take(n));
+            }
         }
         let tfra = fullbox(b"tfra", if v1 { 1 } else { 0 }, 0, &p);
         let mut mfro = Vec::new();
